@@ -129,7 +129,7 @@ var longKey = bytes.Repeat([]byte("K"), 10241)
 // valuePool: adversarial replacement values
 var valuePool = [][]byte{
 	[]byte(""), []byte("-0"), []byte("1e400"), []byte("-1e400"), []byte("9223372036854775807"), []byte("9223372036854775808"),
-	[]byte("-9223372036854775808"), []byte("-9223372036854775809"), []byte("\x00"), []byte("\xff\xfe\x80"), []byte("nan"), []byte("NaN"),
+	[]byte("-9223372036854775808"), []byte("-9223372036854775807"), []byte("-9223372036854775809"), []byte("9223372036854775806"), []byte("\x00"), []byte("\xff\xfe\x80"), []byte("nan"), []byte("NaN"),
 	[]byte("inf"), []byte("-inf"), []byte("+inf"), []byte("Infinity"), []byte("("), []byte("["), []byte("(1"), []byte("[1"), []byte("(inf"), []byte("(nan"),
 	[]byte("-1"), []byte("0"), []byte("1"), []byte("2"), []byte("+5"), []byte("4294967295"), []byte("4294967296"), []byte("2147483648"), []byte("-2147483649"),
 	[]byte("18446744073709551616"), []byte("1.5"), []byte(" 1"), []byte("1 "), []byte("0x10"), []byte("1_000"), []byte("1e3"), []byte("abc"), []byte(":"),
